@@ -4,6 +4,7 @@ import EaselModel.Msa.LemmasGaps
 import EaselModel.Msa.LemmasTags
 import EaselModel.Msa.LemmasWuss
 import EaselModel.Msa.LemmasRbb
+import EaselModel.Msa.LemmasDyck
 /-! # C15 — alignment transformations keep the alignment well formed and the residues intact; WUSS round trips
 
 Property theorems only; proofs are glue on the lemmas of `EaselModel/Msa/Lemmas*.lean`.
@@ -252,6 +253,14 @@ theorem generated_complement_involutive :
 
 /-! ## WUSS -/
 
+/-- `esl_wuss2ct` returns `eslOK` iff every symbol is a legal WUSS symbol and every one of the 27 bracket languages —
+    class 0: `<>`, `()`, `[]`, `{}` on one stack with matching kinds; classes 1..26: the letter pairs `Aa`..`Zz` — is
+    balanced and properly matched, each language judged on its own by the single-stack recogniser `dyckRun`
+    (otherwise the status is `eslESYNTAX`) -/
+theorem wuss2ct_accepts_iff (ss : Bytes) :
+    (∃ ct, wuss2ct ss = some ct) ↔ ((∀ c ∈ ss, legalSym c = true) ∧ ∀ k, k < 27 → balancedClass k ss) :=
+  wuss2ct_accepts_iff' ss
+
 /-- `esl_wuss2ct` returned `eslOK`: the table has `len+1` cells and is an involution without fixed points on the
     paired positions, all of them within `1..len` -/
 theorem wuss2ct_involution (ss : Bytes) (ct : List Nat) (h : wuss2ct ss = some ct) :
@@ -305,6 +314,9 @@ example : (columnSubset exMsa [true, false, true, true]).msa.gc = [([0x66], [0x3
 example : removesOnlyGaps (· == 0x2d) [true, false, true, true] [0x41, 0x2d, 0x43, 0x47] := by simp [removesOnlyGaps]
 example : (sequenceSubset exMsa [false, true]).toOption.map (·.rows) = some [[0x41, 0x2d, 0x2d, 0x47]] := by decide
 example : wuss2ct [0x3c, 0x41, 0x3e, 0x61] = some [0, 3, 4, 1, 2] := by decide
+example : balancedClass 0 [0x3c, 0x41, 0x3e, 0x61] ∧ balancedClass 1 [0x3c, 0x41, 0x3e, 0x61] := by
+  unfold balancedClass; decide
+example : ¬ balancedClass 0 [0x3c, 0x29] := by unfold balancedClass; decide
 example : (ct2wuss [0, 3, 4, 1, 2]).toOption = some [0x3c, 0x41, 0x3e, 0x61] := by decide
 
 end EaselModel.Props.C15
